@@ -229,6 +229,13 @@ struct StrTarget
         return check(x, name);
     }
 
+    // 4 GiB + one page of anonymous zero pages, mapped once per process and never resident beyond the few pages written
+    static unsigned char *giant_map()
+    {
+        static unsigned char *giant = nullptr; static bool tried = false; static size_t const GIANT = ((size_t)1 << 32) + 4096;
+        if (!tried) { tried = true; void *m = mmap(nullptr, GIANT, PROT_READ | PROT_WRITE, MAP_PRIVATE | MAP_ANONYMOUS | MAP_NORESERVE, -1, 0); giant = m == MAP_FAILED ? nullptr : (unsigned char *)m; }
+        return giant;
+    }
     void step(Op const &o)
     {
         StrBox &x = box[o.client & 1];
@@ -286,6 +293,25 @@ struct StrTarget
         case S_CATF:
         {
             if (!roomy) break;
+            if ((((uint64_t)(o.a[3] < 0 ? -o.a[3] : o.a[3])) % 61) == 60 && giant_map())
+            { // formatted append into a string whose spare capacity does not fit an int (2^31 + k bytes of a zero-page mapping that
+              // stands for a string grown that far): the text must arrive complete and terminated, the result is its length
+                unsigned char *g = giant_map();
+                uint64_t const vv = (uint64_t)(o.a[1] < 0 ? -o.a[1] : o.a[1]);
+                std::string const prefix = x.M.substr(0, std::min<size_t>(x.M.size(), 40));
+                static size_t const SPARE[] = {((size_t)1 << 31) + 1, ((size_t)1 << 31) + 8, ((size_t)1 << 31) + 64, ((size_t)1 << 32) + 3};
+                a_str gs; gs.ptr_ = (char *)g; gs.num_ = prefix.size(); gs.mem_ = prefix.size() + SPARE[vv % 4];
+                memcpy(g, prefix.data(), prefix.size());
+                char text[96]; int const tl = snprintf(text, sizeof text, "%s-%llu-%s", "deterministic", (unsigned long long)vv, vv & 1 ? "simulation with fault injection" : "x");
+                c.site("a_str_catf");
+                int const got = a_str_catf(&gs, "%s", text);
+                bool const okc = got == tl && gs.num_ == prefix.size() + (size_t)tl && gs.ptr_ == (char *)g && memcmp(g + prefix.size(), text, (size_t)tl) == 0 && g[prefix.size() + (size_t)tl] == 0 && memcmp(g, prefix.data(), prefix.size()) == 0;
+                size_t const dirty = prefix.size() + (size_t)(tl > 0 ? tl : 0) + 8;
+                memset(g, 0, dirty < 4096 ? dirty : 4096);
+                c.st.add("probe.formatted_append_with_spare_capacity_beyond_int");
+                if (!okc) c.fail("formatted-append-wrong", "a_str_catf", "appending %d formatted bytes to a string with %zu bytes of spare capacity returned %d and left length %zu", tl, gs.mem_ - prefix.size(), got, gs.num_);
+                break;
+            }
             static char ref[8192];
             int reflen = -1;
             bool const use_v = (o.a[2] & 1) != 0;
@@ -585,8 +611,7 @@ struct StrTarget
             if ((v / 7) % 6 == 5 && len <= 256)
             { // the other operand is an enormous (2^31 .. 2^32+k byte) zero-page mapping that starts with this string's
               // content: only the common prefix is ever read, the order is decided by lengths that do not fit an int
-                static unsigned char *giant = nullptr; static size_t const GIANT = ((size_t)1 << 32) + 4096;
-                if (!giant) { void *m = mmap(nullptr, GIANT, PROT_READ | PROT_WRITE, MAP_PRIVATE | MAP_ANONYMOUS | MAP_NORESERVE, -1, 0); giant = m == MAP_FAILED ? nullptr : (unsigned char *)m; }
+                unsigned char *giant = giant_map();
                 if (giant)
                 {
                     static size_t const EXTRA[] = {((size_t)1 << 31) - 1, (size_t)1 << 31, ((size_t)1 << 31) + 1, ((size_t)1 << 32) - 1, (size_t)1 << 32, ((size_t)1 << 32) + 5};
